@@ -3,6 +3,7 @@ package scn
 
 import (
 	"context"
+	"errors"
 	"fmt"
 
 	"github.com/bradenaw/juniper/parallel"
@@ -117,7 +118,16 @@ func max0(x int) int {
 // closes after that many results; expire: the consumer's calls use a context that another thread
 // cancels at any time, after which it retries with a live one.
 func mapStream(script []sx.Step, p, b, procs, failAt, closeAfter int, expire bool) Scenario {
+	return mapStreamX(script, p, b, procs, failAt, closeAfter, expire, "")
+}
+
+// ctor: what happens to the context given to MapStream itself: "" live throughout, "precancelled"
+// (over before the call), "cancelMid" (another thread cancels it at any time).
+func mapStreamX(script []sx.Step, p, b, procs, failAt, closeAfter int, expire bool, ctor string) Scenario {
 	name := fmt.Sprintf("mapStream/src=%s/p=%d/buf=%d/procs=%d/failAt=%d/closeAfter=%d/expire=%v", scriptName(script), p, b, procs, failAt, closeAfter, expire)
+	if ctor != "" {
+		name += "/ctorCtx=" + ctor
+	}
 	return Scenario{name, procs, func() {
 		src := &sx.Src{Name: "src", Steps: script}
 		var srcErr error
@@ -141,7 +151,20 @@ func mapStream(script []sx.Step, p, b, procs, failAt, closeAfter int, expire boo
 			}
 		}
 		calls := map[int]int{}
-		ms := parallel.MapStream[int, int](context.Background(), src, p, b, func(ctx context.Context, x int) (int, error) {
+		ctorCtx, ctorCancel := context.WithCancel(context.Background())
+		defer ctorCancel()
+		ctorCancelled := false
+		if ctor == "precancelled" {
+			ctorCancelled = true
+			ctorCancel()
+		}
+		if ctor == "cancelMid" {
+			go func() {
+				hx.Atomically(func() { ctorCancelled = true })
+				ctorCancel()
+			}()
+		}
+		ms := parallel.MapStream[int, int](ctorCtx, src, p, b, func(ctx context.Context, x int) (int, error) {
 			hx.Atomically(func() { calls[x]++ })
 			hx.Yield()
 			if x == failAt {
@@ -231,6 +254,13 @@ func mapStream(script []sx.Step, p, b, procs, failAt, closeAfter int, expire boo
 			}
 		case end == sx.ErrFn && failAt >= 0 && firstBad < len(items):
 		case srcErr != nil && end == srcErr:
+		case ctor != "" && end == context.Canceled:
+			// the caller ended the context it gave to MapStream: its error is the caller's own doing
+			hx.Atomically(func() {
+				if !ctorCancelled {
+					hx.Fail("foreign-error", "MapStream reported %v although nobody had cancelled the context given to it", end)
+				}
+			})
 		default:
 			hx.Fail("foreign-error", "MapStream reported %v; the source fails with %v and f with %v", end, srcErr, map[bool]error{true: sx.ErrFn}[failAt >= 0])
 		}
@@ -244,6 +274,8 @@ func scriptName(script []sx.Step) string {
 		switch {
 		case st.Err == context.Canceled:
 			s += "cE" // the source's own error happens to be context.Canceled
+		case st.Err != nil && st.Err != stream.End && errors.Is(st.Err, stream.End):
+			s += "wE" // ... or wraps the end sentinel
 		case st.Err != nil:
 			s += "E"
 		case st.Block:
@@ -295,6 +327,12 @@ func All() []Scenario {
 		mapStream(vals(3), 1, 0, 2, 2, -1, false),
 		mapStream(append(vals(2), e), 2, 0, 2, -1, -1, false),
 		mapStream([]sx.Step{e}, 2, 1, 2, -1, -1, false),
+		// the source's own error wraps the end sentinel
+		mapStream(append(vals(1), sx.Step{Err: fmt.Errorf("read failed: %w", stream.End)}), 2, 0, 2, -1, -1, false),
+		// the context given to MapStream itself ends (before the call / at any time)
+		mapStreamX(vals(2), 2, 0, 2, -1, -1, false, "precancelled"),
+		mapStreamX(vals(3), 1, 0, 2, -1, -1, false, "cancelMid"),
+		mapStreamX(append(vals(1), blk), 2, 0, 2, -1, -1, false, "cancelMid"),
 		// the source's own error is context.Canceled
 		mapStream(append(vals(1), sx.Step{Err: context.Canceled}), 2, 0, 2, -1, -1, false),
 		mapStream(append(vals(1), e), 1, 1, 2, 0, -1, false),
